@@ -391,3 +391,80 @@ def fixpoint(  # noqa: C901, PLR0912, PLR0913, PLR0915
         "capped": capped or mism > 0,
         "violations": violations,
     }
+
+
+# ------------------------------------------------------------------------------------------------
+
+
+def deep_probe(  # noqa: C901, PLR0913
+    make: Callable[[], Any],
+    *,
+    cycle_len: int = 2,
+    reps: tuple = (9, 20),
+    suffix: int = 3,
+    cycles: list | None = None,
+) -> dict:
+    """Histories far beyond the breadth-first horizon, systematically: every *cycle* of at most
+    `cycle_len` operations (over the operations enabled initially) is repeated `n` times for each
+    n in `reps` - driving the object deep into its life (counters, batch thresholds, compaction,
+    wrap-around) - and from the state reached EVERY continuation of at most `suffix` operations is
+    executed, the oracle running on every step of the warm-up and of the continuation.
+    Exhaustive for the family {cycle^n . w : |cycle| <= cycle_len, n in reps, |w| <= suffix}."""
+    violations: list[dict] = []
+    sigs: set = set()
+    runs = ops_applied = 0
+
+    def note(v: dict, hist: list) -> None:
+        if v["signature"] not in sigs:
+            sigs.add(v["signature"])
+            v = dict(v)
+            v["history"] = [list(o) if isinstance(o, tuple) else o for o in hist]
+            violations.append(v)
+
+    s0 = make()
+    try:
+        base = list(s0.enabled())
+    finally:
+        s0.close()
+    if cycles is None:
+        cycles = [[a] for a in base]
+        if cycle_len >= 2:
+            cycles += [[a, b] for a in base for b in base if repr(a) != repr(b)]
+    prefixes = 0
+    for cyc in cycles:
+        for n in reps:
+            warm = cyc * n
+            prefixes += 1
+            # depth-first over continuations, each replayed from a fresh object
+            stack: list[list] = [[]]
+            while stack:
+                w = stack.pop()
+                runs += 1
+                if runs % 64 == 0:
+                    gc.collect()
+                s = make()
+                try:
+                    ok = True
+                    hist: list = []
+                    for op in warm + w:
+                        if repr(op) not in {repr(e) for e in s.enabled()}:
+                            ok = False
+                            break
+                        hist.append(op)
+                        s.apply(op)
+                        ops_applied += 1
+                        if s.viols:
+                            for v in s.viols:
+                                note(v, hist)
+                            ok = False
+                            break
+                    if ok and len(w) < suffix:
+                        for op in reversed(list(s.enabled())):
+                            stack.append(w + [op])
+                finally:
+                    s.close()
+            if violations:
+                break
+        if violations:
+            break
+    return {"prefixes": prefixes, "executions": runs, "operations": ops_applied, "violations": violations}
